@@ -3,10 +3,11 @@
 (* (checksum = ENT/4 bits), valid ENT in {8, 12} bits (2 / 3 words), list of    *)
 (* 2^W = 32 words, toy hash.  Cases: every entropy bit string of length 0..13,  *)
 (* every index sequence of length 0..3 over 0..32 (32 = not in the list) and    *)
-(* length-4 sequences over a small alphabet.  Swap = TRUE is the self-test      *)
+(* length-4 sequences over a small alphabet (3-word sequences: first word in     *)
+(* First3 - the quick config restricts it, the thorough one does not).  Swap = TRUE is the self-test      *)
 (* deviation (checksum compared with the hash of the WRONG bits).               *)
 EXTENDS Bip39, FiniteSets
-CONSTANTS W, U, ValidEnt, Swap
+CONSTANTS W, U, ValidEnt, Swap, First3
 VARIABLE c
 ListSize == Pow2(W)
 ToyHB(bits) == BytesToBits(Sha256(IF Swap /\ Len(bits) > 8 THEN Rev(bits) ELSE bits))
@@ -20,7 +21,7 @@ Strings(alpha, n) == IF n = 0 THEN {<<>>}
                           IN S \cup {Append(s, a) : s \in {t \in S : Len(t) = n - 1}, a \in alpha}
 MaxEnt == 13
 Cases == [k : {"ent"}, v : Strings({0, 1}, MaxEnt)]
-         \cup [k : {"idx"}, v : Strings(0..ListSize, 3)]
+         \cup [k : {"idx"}, v : {s \in Strings(0..ListSize, 3) : Len(s) < 3 \/ s[1] \in First3}]
          \cup [k : {"idx"}, v : {s \in Strings({0, 1, ListSize - 1, ListSize}, 4) : Len(s) = 4}]
 Groups == 16
 Key(x) == Len(x.v) + (IF x.v = <<>> THEN 0 ELSE (3 * x.v[1]) + x.v[Len(x.v)])
